@@ -3,6 +3,9 @@ use lexical_parse_float::parse::{parse_mantissa_sign, parse_number};
 use lexical_util::format as f;
 use lexical_util::iterator::{AsBytes, Iter};
 
+#[path = "comp_parse.rs"]
+pub mod comp_parse;
+
 fn hex128(s: &str) -> u128 {
     u128::from_str_radix(s.trim_start_matches("0x"), 16).unwrap()
 }
@@ -21,6 +24,14 @@ pub fn run_comp(op: &str, a: &[&str]) -> String {
         "rb" => format!("{:x}", f::NumberFormatBuilder::rebuild(hex128(a[0])).build_unchecked()),
         // pn FMT PARTIAL LOSSY EXP DP NAN INF INFINITY HEX
         "pn" => crate::dispatch_pn(crate::parse_fmt(a[0]), &a[1..]).unwrap_or_else(|| "nofmt".to_string()),
+        // algorithm components (comp_parse.rs): cf / lm (no format), bel / bin / sbin / fp TY FMT ..
+        "cf" => comp_parse::op_cf(a),
+        "lm" => comp_parse::op_lm(a),
+        "bel" | "bin" | "sbin" | "fp" => {
+            let mut v: Vec<&str> = vec![op, a[0]];
+            v.extend_from_slice(&a[2..]);
+            crate::dispatch_alg(crate::parse_fmt(a[1]), &v).unwrap_or_else(|| "nofmt".to_string())
+        },
         _ => "badop".into(),
     }
 }
